@@ -68,12 +68,13 @@ WITNESSES = [
     ("credit new - c_in", [(_I, "marginal_contribution = sample_loss - feature_loss", "marginal_contribution = feature_loss - sample_loss")]),
     ("chain starts at another loss value", [(_I, "            sample_loss = marginal_loss\n", "            sample_loss = self._loss_function(y_i, self.marginal_prediction)\n")]),
     ("importance tracker not updated when a flag is off", [(_I, "            self._importance_trackers.update(marginal_contributions)\n", "            if update_storage:\n                self._importance_trackers.update(marginal_contributions)\n")]),
-    ("shared base tracker for the loss trackers", [(_B, "self._marginal_loss_tracker: Tracker = copy.deepcopy(base_tracker)", "self._marginal_loss_tracker: Tracker = base_tracker")]),
+    ("one tracker object for both loss estimates", [(_B, "self._model_loss_tracker: Tracker = copy.deepcopy(base_tracker)", "self._model_loss_tracker: Tracker = self._marginal_loss_tracker")]),
     ("explained loss from raw trackers minus offset", [(_I, "return self.marginal_loss - self.model_loss", "return self.marginal_loss - self._model_loss_tracker.get()")]),
     ("coalition starts from the instance keys", [(_I, "features_not_in_s = set(self.feature_names)", "features_not_in_s = set(x_i)")]),
     ("model loss of another instance", [(_I, "model_loss = self._loss_function(y_i, y_i_pred)", "model_loss = self._loss_function(y_i, self.marginal_prediction)")]),
 ]
 SILENT = [
+    ("the pristine base tracker itself serves as one estimate", [(_B, "self._marginal_loss_tracker: Tracker = copy.deepcopy(base_tracker)", "self._marginal_loss_tracker: Tracker = base_tracker")]),
     ("tuple assignment", [(_I, _CHAIN, "                sample_loss, marginal_contribution = feature_loss, sample_loss - feature_loss\n                marginal_contributions[feature] = marginal_contribution\n")]),
     ("rename locals", [(_I, "sample_loss", "loss_before", "all"), (_I, "feature_loss", "loss_after", "all")]),
     ("credit written directly", [(_I, _CHAIN, "                marginal_contributions[feature] = sample_loss - feature_loss\n                sample_loss = feature_loss\n")]),
